@@ -61,9 +61,20 @@ def run(ctx):
         segs += [[('R', 22), ('W', a), ('R', None), ('S', None), ('W', None)] for a in range(0, ctx.pick(70, 120), stride)]
         # every other configuration has a series whose file does not exist yet (create + tag registration on the way)
         pre = ('m1', 'm2') if (si + limits.index(lim)) % 2 else ('m1',)
+        # the storing thread is parked right before it takes the cache lock for its k-th store (whatever it looked up
+        # before is then stale); the writer drains once or twice; the store completes; then the stop
+        plans = [[('R', ('kind', 'acquire', k)), ('W', ('kind', 'release', wrel)), ('R', ('done',)), ('S', ('done',)), ('W', ('done',))]
+                 for k in range(2, len(r_ops) + 1) for wrel in (2, 4)]
         n = writercheck.explore(ctx, wm, cfg, r_ops, set(), pre, bound=ctx.pick(1, 2),
-                                nrandom=ctx.pick(10, 150), limit=ctx.pick(40, 800), sink=col, segments=segs)
+                                nrandom=ctx.pick(10, 150), limit=ctx.pick(40, 800), sink=col, segments=segs, plans=plans)
         ctx.evaluations += n
+        # one write() of the flush fails (OSError / a backend-specific exception): the failure is counted and reported and
+        # every other series is still flushed before the thread exits
+        if lag == 0:
+          for f in range(0, ctx.pick(3, 5)):
+            n = writercheck.explore(ctx, wm, dict(cfg, fault_writes=True), r_ops, {f}, pre, bound=0, nrandom=ctx.pick(1, 4), limit=2, sink=col,
+                                    segments=[[('R', None), ('S', None), ('W', None)], [('R', None), ('W', 30), ('S', None), ('W', None)]])
+            ctx.evaluations += n
   verdicts = writersys.judge(ctx, col.traces, 'C04 traces')
   for i, tr in enumerate(col.traces):
     ks = [e['k'] for e in tr['ev']]
